@@ -45,6 +45,29 @@ func vRefAkaAttrBytes(a VRefAkaAttr, pad uint8) []byte {
 }
 
 // VRefEncodeAka: EAP-AKA' packet: code, id, length, type 50, subtype, reserved(2), attributes.
+// VRefAkaNum is the RFC 4187 / RFC 5448 number of an attribute, by its position in VAkaAttrs (the
+// reference encoder does not take the numbers from the library's constants: they are part of what is
+// checked).  AT_RAND 1, AT_AUTN 2, AT_RES 3, AT_MAC 11, AT_KDF 24, AT_KDF_INPUT 23, AT_CHECKCODE 134.
+func VRefAkaNum(t EapAkaPrimeAttrType) uint8 {
+	nums := []uint8{1, 2, 3, 11, 24, 23, 134}
+	for i, x := range VAkaAttrs {
+		if x == t {
+			return nums[i]
+		}
+	}
+	panic("VRefAkaNum: attribute outside VAkaAttrs")
+}
+
+// vRefAkaConst: the library's name for a wire number (inverse of VRefAkaNum).
+func vRefAkaConst(n uint8) EapAkaPrimeAttrType {
+	for i, x := range []uint8{1, 2, 3, 11, 24, 23, 134} {
+		if x == n {
+			return VAkaAttrs[i]
+		}
+	}
+	return EapAkaPrimeAttrType(n)
+}
+
 func VRefEncodeAka(code, id, subtype uint8, attrs []VRefAkaAttr) []byte {
 	body := []byte{50, subtype, 0, 0}
 	for _, a := range attrs {
@@ -74,7 +97,7 @@ func VRefEncodeEAP(e *EAP) []byte {
 		var attrs []VRefAkaAttr
 		for _, t := range []EapAkaPrimeAttrType{AT_RAND, AT_AUTN, AT_RES, AT_MAC, AT_KDF_INPUT, AT_KDF, AT_CHECKCODE} {
 			if a, ok := x.attributes[t]; ok {
-				attrs = append(attrs, VRefAkaAttr{Type: uint8(t), Value: a.value})
+				attrs = append(attrs, VRefAkaAttr{Type: VRefAkaNum(t), Value: a.value})
 			}
 		}
 		return VRefEncodeAka(uint8(e.Code), e.Identifier, uint8(x.subType), attrs)
@@ -128,7 +151,7 @@ func VRefParseEAP(b []byte) (*EAP, bool) {
 			}
 			at := rest[:4*words]
 			rest = rest[4*words:]
-			attr := &EapAkaPrimeAttr{attrType: EapAkaPrimeAttrType(t), length: uint8(words)}
+			attr := &EapAkaPrimeAttr{attrType: vRefAkaConst(t), length: uint8(words)}
 			switch t {
 			case 1, 2, 11:
 				if words != 5 || at[2] != 0 || at[3] != 0 {
